@@ -52,7 +52,13 @@ MANIFEST = {
             "coap_block_delete_lg_srcv directly (src/coap_block.c is #included by the harness) under every single failing request "
             "index: return values, request counts, count and entries of the token list, received ranges / total / body length / "
             "no_more_seen / last_token of the lg_srcv (`asrcvu`: the same against the unknown resource, plus whether the path "
-            "copy is there), trace. NOT proved, enumerated only (OBSERVATION of the real code against the property text, no theorem): the 19 scenarios "
+            "copy is there), trace. Also in M and proved for every oracle, every byte stream and every cut into read events: the "
+            "allocation skeleton of the reliable-transport receive path (coap_read_session's stream branch: partial_pdu allocated "
+            "when the header is complete, stored in the session, grown to the announced size, detached / dispatched / deleted when "
+            "complete, deleted by coap_session_disconnected_lkd on every failure exit and by coap_session_free) -- "
+            "recv_at_most_one_partial, recv_pdu_released_once, recv_no_leak_on_failure, recv_new_session_starts_clean; tied by "
+            "`arecv` scripts (real coap_read_session of a TCP session fed by a chunk feeder, coap_dispatch recorded through the "
+            "source hook) under every single failing request index. NOT proved, enumerated only (OBSERVATION of the real code against the property text, no theorem): the 19 scenarios "
             "uri, pdu, request/response, Block1, Block2, observe, set-up/tear-down, OSCORE, 5.08, /.well-known/core of a 17-resource "
             "server (block-wise, with filters), hand-built Block1 upload without Size1 (in and out of order), hand-written Block2 "
             "server without Size2 (no ETag / ETag / changing ETag), block-wise observe, cache entries with app data, async, observer life "
@@ -91,7 +97,7 @@ MANIFEST = {
             "addr2line for site names, the hand transcription M (checked on the scripts run).",
     "design_ref": "DESIGN.md §4 C18, design/C18.md",
 }
-LEAN_MODULES = ["CoapVerif.Props.C18"]
+LEAN_MODULES = ["CoapVerif.Props.C18", "CoapVerif.Props.C18Recv"]
 NAMESPACE = "Coap.C18"
 # clean (exit 0) at seeds 1..3 quick on 2026-09-28 with dly / tcp and the delayed-send scripts (E0 / E1)
 REQUIRED_THEOREMS = ["failure_atomic", "no_leak_on_failure", "send_consumes_pdu", "send_error_keeps_slot", "next_op_succeeds",
@@ -102,7 +108,9 @@ REQUIRED_THEOREMS = ["failure_atomic", "no_leak_on_failure", "send_consumes_pdu"
                      "lg_srcv_failure_drops_state", "lg_srcv_restart_succeeds", "lg_crcv_new_succeeds_with_memory",
                      "lg_srcv_setup_failure_atomic", "lg_srcv_uri_path_failure",
                      "send_pdu_consumed_exactly_once", "send_delayed_iff", "delayed_send_node_failure_releases_once",
-                     "delayed_send_succeeds_with_memory", "connected_drain_spec", "drain_reqs_replays"]
+                     "delayed_send_succeeds_with_memory", "connected_drain_spec", "drain_reqs_replays",
+                     "recv_at_most_one_partial", "recv_pdu_released_once", "recv_script_clean", "recv_no_leak_on_failure",
+                     "recv_alloc_failure_is_failure_exit", "recv_new_session_starts_clean"]
 RULE = ("(1) helper-layer scripts `ahelp k1 k2 <ops>`: random sequences (4..16 calls) of coap_pdu_init / add_token / add_option "
         "(ascending numbers, lengths on both sides of 12/13, 268/269) / add_data / pdu_resize / pdu_check_resize / delete_pdu / "
         "new_optlist+insert_optlist / add_optlist_pdu / delete_optlist / new_string|str_const|bin_const / delete / coap_send "
